@@ -4,7 +4,20 @@ import cspuz
 from cspuz import constraints as C
 
 
-def build(d, vs):
+def build(d, vs, cache=None):
+    """cache (one dict per session): an operator node that was built before is the SAME Python object when it occurs
+    again, inside the same constraint or in a later one - the way user code names a sub-expression and uses it twice.
+    An expression object is a value: using it as an operand must not change it."""
+    if cache is not None and d["f"] not in ("var", "ilit", "blit", "list"):
+        import json
+        key = json.dumps(d, sort_keys=True)
+        if key not in cache:
+            cache[key] = _build(d, vs, cache)
+        return cache[key]
+    return _build(d, vs, cache)
+
+
+def _build(d, vs, cache):
     f = d["f"]
     if f == "var":
         return vs[d["id"]]
@@ -13,7 +26,7 @@ def build(d, vs):
     if f == "blit":
         return d["b"]
     if f == "list":
-        items = [build(x, vs) for x in d["args"]]
+        items = [build(x, vs, cache) for x in d["args"]]
         style = d.get("style", "list")
         if style == "tuple":
             return tuple(items)
@@ -28,7 +41,7 @@ def build(d, vs):
             if items and all(isinstance(x, (IntExpr, int)) and not isinstance(x, bool) for x in items):
                 return IntArray1D(items)
         return items
-    a = [build(x, vs) for x in d["args"]]
+    a = [build(x, vs, cache) for x in d["args"]]
     if f == "neg":
         return -a[0]
     if f == "not":
@@ -94,7 +107,10 @@ def is_lit(d):
 
 
 class Gen:
-    def __init__(self, rng, decl, lits=(-3, -1, 0, 1, 2, 5)):
+    def __init__(self, rng, decl, lits=(-3, -1, 0, 1, 2, 5), pool=None):
+        # pool: compound sub-expressions generated earlier in the same session, re-used as operands now and then
+        # (the driver then hands the SAME object to the library again, see build)
+        self.pool = pool if pool is not None else {"b": [], "i": []}
         self.r = rng
         self.b = [i for i, v in enumerate(decl) if v["kind"] == "bool"]
         self.i = [i for i, v in enumerate(decl) if v["kind"] == "int"]
@@ -127,7 +143,25 @@ class Gen:
         return out
 
     def int_expr(self, depth):
+        x = self._int_expr(depth)
+        if "args" in x and x["f"] != "list":
+            self.pool["i"].append(x)
+        return x
+
+    def bool_expr(self, depth):
+        x = self._bool_expr(depth)
+        if "args" in x and x["f"] != "list":
+            self.pool["b"].append(x)
+        return x
+
+    def _usable(self, x):
+        """a pooled expression may only mention variables that still exist (they all do: declarations only grow)"""
+        return True
+
+    def _int_expr(self, depth):
         r = self.r
+        if depth >= 1 and self.pool["i"] and r.random() < 0.15:
+            return r.choice(self.pool["i"][-12:])
         if depth <= 0 or r.random() < 0.25:
             return self.iatom()
         c = r.random()
@@ -153,8 +187,10 @@ class Gen:
         items = [self.bool_expr(depth - 1) for _ in range(n)]
         return {"f": "count_true", "args": self.nest(items)}
 
-    def bool_expr(self, depth):
+    def _bool_expr(self, depth):
         r = self.r
+        if depth >= 1 and self.pool["b"] and r.random() < 0.15:
+            return r.choice(self.pool["b"][-12:])
         if depth <= 0 or r.random() < 0.15:
             return self.batom()
         c = r.random()
